@@ -33,7 +33,7 @@ CHECKS = {
  "C07": ("enumerator", "enumeration of (carrier, width, offset, background, value) against a reference one-bit-at-a-time packer/reader (hook)",
          "Generated-input exploration close to exhaustive on the small dimensions: all 12 carriers x all widths x all 8 alignments (thorough: offsets 0..=71) x 3 backgrounds x all values for narrow fields / boundary, one-hot and random values for wide ones, plus every overrunning (offset,width) on 1..3-byte buffers.",
          "needs the cfg(rtcm_rs_verif) re-export; hook adds no behaviour", "§3 C07"),
- "C08": ("enumerator", "exhaustive enumeration of all 2^w bit patterns per data field (w<=30 quick, w<=32 thorough) with a decode->encode identity oracle through an own bit reader/writer (hook)",
+ "C08": ("enumerator", "exhaustive enumeration of all 2^w bit patterns per data field (w<=30 quick, w<=32 thorough) with a decode->encode identity oracle through an own bit reader/writer (hook), encoding over 0xFF- and 0x00-filled buffers",
          "Exhaustive for every field up to the width bound (quick 30 bits: 266 of 309 fields, thorough 32 bits: 300 of 309 fields); boundary windows, one-hot and large random samples for wider fields backed by the error-bound argument in DESIGN.md; hand-written bias codecs enumerated completely through frames.",
          "needs the hook; the list of sign-magnitude fields is pinned from the standard", "§3 C08"),
  "C11": ("sampler", "stratified generation of real inputs between adjacent grid points per float field, oracle = neighbour membership + half-step bound with derived float slack + monotonicity (hook); bias lists in arbitrary caller order through messages",
